@@ -448,6 +448,11 @@ def judge_swizzle(cls, attrs, a, ob):
 
 # --------------------------------------------------------------------------- entry point
 
+def num(tok):
+    """`!v`: a user number object worth v - the textbook sees the number"""
+    return F(tok[1:] if tok.startswith('!') else tok)
+
+
 def oracle(lines, obs):
     out = []
     lines = [ln for ln in lines if ln.split()]
@@ -455,13 +460,29 @@ def oracle(lines, obs):
         if obs and obs[0] in ('hang', 'bad-op'):
             return [{'sig': 'C18:protocol', 'what': f'run ended with {obs[0]}'}]
         return [{'sig': 'C18:protocol', 'what': f'{len(lines)} calls but {len(obs)} observations'}]
+    store = {}          # operand objects of the scenario: id -> current values (a list edited in place)
     for ln, ob in zip(lines, obs):
         t, o = ln.split(), ob.split()
         msg = None
         try:
+            if t[0] == 'obj':
+                store[t[1]] = [num(x) for x in t[2:]]
+                continue
+            if t[0] == 'set':
+                if t[1] in store and int(t[2]) < len(store[t[1]]):
+                    store[t[1]][int(t[2])] = num(t[3])
+                continue
             if t[0] == 'call' and o[0] == 'r':
-                msg = judge_exact(t[1], [F(x) for x in t[2:]], o[2:])
+                if any(x.startswith('@') and x[1:] not in store for x in t[2:]):
+                    continue                                   # dangling reference (a shrunk scenario)
+                # the value of `A op B` depends on the values the operands have NOW, whatever object
+                # carries them and whatever was computed before
+                a = [v for x in t[2:] for v in (store[x[1:]] if x.startswith('@') else [num(x)])]
+                msg = judge_exact(t[1], a, o[2:])
                 sig = t[1]
+                if msg and any(x.startswith('@') for x in t[2:]):
+                    msg += '  [operands %s are list objects edited in place earlier in the scenario]' % \
+                        ', '.join(x for x in t[2:] if x.startswith('@'))
             elif t[0] == 'callf' and o[0] == 'rf':
                 msg = judge_float(t[1], [float(x) for x in t[2:]], o[2:])
                 sig = t[1]
